@@ -241,6 +241,27 @@ def obligations(tier):
                                cost=40 if coding else 8,
                                desc="exporting the same object in chunk-relative and chromosome mode (either order, repeated) gives each mode's correct record",
                                bounds="2 blocks on a chunk of length %d at symbolic offset" % L, examples=[ex]))
+    # many blocks (size-dependent code paths start at some block count)
+    for strand in (PLUS, MINUS):
+        for kind, coding in (("feat", None), ("tx", (2, 14))):
+            k = 17
+            params = dict(layout_params(k))
+            if coding:
+                params.update(co=int, ce=int)
+            ex = {"s0": 103}
+            for i in range(k):
+                ex["l%d" % i] = 3 + (i % 3)
+            for i in range(1, k):
+                ex["g%d" % i] = 2 + (i % 2)
+            if coding:
+                ex.update(co=1, ce=2)
+            for text in ((False,) if quick else (False, True)):
+                out.append(Obl("bed12_%s_k17_%s_%s_%s" % (kind, sname(strand), "cds" if coding else "nc", "text" if text else "obj"),
+                               bed_fn(kind, k, strand, coding, None, text), params, pre_fn(k, coding, False), budget=600, cost=40,
+                               stubs=dict(tokens=True) if text else {},
+                               desc="BED12 of a 17-block %s%s: count/sizes/starts consistent, decoded blocks and thick range == source" % (
+                                   kind, " whose CDS runs from exon 3 to exon 15" if coding else ""),
+                               bounds="17 blocks (len>=1, gaps>=1), unbounded ints", examples=[ex]))
     out.append(Obl("bed12_name_score_rgb", name_fallback_fn(), {"s0": int, "l0": int}, lambda s0, l0: s0 >= 0 and l0 >= 1,
                    budget=60, cost=2, stubs=dict(tokens=True), desc="name attribute lookup / literal fallback, score and rgb columns",
                    bounds="1 block", examples=[dict(s0=3, l0=4)]))
